@@ -959,28 +959,15 @@ func AdoptSession(p Persistence, c *Config) (client *Client, warn []error, fatal
 		txs := &client.orderedTxs
 		if len(releaseKeys) == 0 { // implies len(publishKeys) != 0
 			txs.Completed = publishKeys[0] & publishIDMask
-			txs.Received = txs.Completed
 		} else {
 			txs.Completed = releaseKeys[0] & publishIDMask
-			txs.Received = releaseKeys[len(releaseKeys)-1]&publishIDMask + 1
-			if txs.Received < txs.Completed {
-				// range overflows address space
-				txs.Received += publishIDMask + 1
-			}
 		}
-
-		var last uint
-		if len(publishKeys) != 0 {
-			last = publishKeys[len(publishKeys)-1] & publishIDMask
-		} else {
-			last = releaseKeys[len(releaseKeys)-1] & publishIDMask
-		}
-		if last+1 < txs.Received {
-			// range overflows address space
-			last += publishIDMask + 1
-		}
+		// Both sequences are continuous, and the PUBLISH entries follow
+		// the PUBREL entries directly. Counting covers a full turn of the
+		// address space too, where first and last can not tell.
+		txs.Received = txs.Completed + uint(len(releaseKeys))
 		seq := <-client.exactlyOnce.seqSem
-		seq.acceptN = last + 1
+		seq.acceptN = txs.Received + uint(len(publishKeys))
 		// BUG(pascaldekloe):
 		//  AdoptSession assumes that all publish-exactly-once packets
 		//  were submitted before already. Persisting the actual state
